@@ -200,7 +200,9 @@ func (fu *folderUpload) FormattedPath() string {
 		pathData = pathData[3+segLen:]
 	}
 
-	return filepath.Join(pathSegments...)
+	// Root the client-supplied segments before cleaning so that ".." can never climb above the folder the result is
+	// joined under.
+	return filepath.Join("/", filepath.Join(pathSegments...))
 }
 
 type FileHeader struct {
